@@ -149,3 +149,23 @@ package pubsub
 //@   ensures counted: p.myRelays[topic] == ite(old(p.myRelays[topic]) > 0, old(p.myRelays[topic]) - 1, 0)
 //@   ensures withdraw-on-last-only: calls((*PubSub).announce) - old(calls((*PubSub).announce)) == ite(old(interested(p, topic)) && !interested(p, topic), 1, 0)
 //@   ensures leave-with-withdraw: calls(PubSubRouter.Leave) - old(calls(PubSubRouter.Leave)) == calls((*PubSub).announce) - old(calls((*PubSub).announce))
+
+// The hello packet sent to a new peer lists exactly the topics of interest, each once, as subscriptions.
+//@ func (*PubSub).getHelloPacket
+//@   property C05
+//@   requires inv: p.mySubs != nil && p.myRelays != nil && p.myTopics != nil &&
+//@        (forall t string :: t in p.mySubs ==> len(p.mySubs[t]) > 0) && (forall t string :: t in p.myRelays ==> p.myRelays[t] > 0)
+//@   loop 1 invariant subs: forall t string :: (t in subscriptions) == ($visited[t] && !fanoutOnlyT(p, t))
+//@   loop 2 invariant relays: forall t string :: (t in subscriptions) == ((t in p.mySubs && !fanoutOnlyT(p, t)) || $visited[t])
+//@   loop 3 invariant entries: forall i int :: 0 <= i && i < len(rpc.Subscriptions) ==> rpc.Subscriptions[i] != nil &&
+//@        rpc.Subscriptions[i].Topicid != nil && rpc.Subscriptions[i].Subscribe != nil && deref(rpc.Subscriptions[i].Subscribe) &&
+//@        $visited[deref(rpc.Subscriptions[i].Topicid)]
+//@   loop 3 invariant covered: forall t string :: $visited[t] ==> (exists i int :: 0 <= i && i < len(rpc.Subscriptions) && deref(rpc.Subscriptions[i].Topicid) == t)
+//@   loop 3 invariant once: len(rpc.Subscriptions) == $count
+//@   loop 3 invariant own: (cap(rpc.Subscriptions) == 0 || fresh(arr(rpc.Subscriptions))) && (forall i int :: 0 <= i && i < len(rpc.Subscriptions) ==>
+//@        allocated(rpc.Subscriptions[i]) && allocated(rpc.Subscriptions[i].Topicid) && allocated(rpc.Subscriptions[i].Subscribe))
+//@   ensures fresh: result != nil && fresh(result)
+//@   ensures only-interested: forall i int :: 0 <= i && i < len(result.Subscriptions) ==> result.Subscriptions[i] != nil &&
+//@        result.Subscriptions[i].Topicid != nil && result.Subscriptions[i].Subscribe != nil && deref(result.Subscriptions[i].Subscribe) &&
+//@        interested(p, deref(result.Subscriptions[i].Topicid))
+//@   ensures all-interested: forall t string :: interested(p, t) ==> (exists i int :: 0 <= i && i < len(result.Subscriptions) && deref(result.Subscriptions[i].Topicid) == t)
